@@ -47,5 +47,5 @@ CellInv == (k < Len(input.ot)) =>
       T1 == OrdTable(input, I, OI, LcaMap(input.ot, OI, I, input.lm), Base, order)
       u == k + 1
   IN \A q \in DOMAIN table[u] :
-       table[u][q] = IF q \in DOMAIN T1[u] THEN T1[u][q] ELSE Inf
+       table[u][q] = IF q \in DOMAIN T1[u] THEN T1[u][q].v ELSE Inf
 =============================================================================
